@@ -82,7 +82,12 @@ Inductive case :=
            (qs : list (bytes * bytes * res bool))          (* (obj, act, Enforce result) *)
 | CGenerate (role : bytes) (d : Z) (tlo thi : Z) (SL : sealed) (obs : res bytes)
 | CRefresh (tok : bytes) (T : tables) (d : Z) (tlo thi : Z) (SL : sealed) (obs : res bytes)
-| CHandler (header : bytes) (T : tables) (tlo thi : Z) (path method : bytes) (obs : hres).
+| CHandler (header : bytes) (T : tables) (tlo thi : Z) (path method : bytes) (obs : hres)
+(** answers observed while 8 goroutines were calling Enforce / RefreshKey on the
+    one Authenticator ([tlo], [thi] bracket the whole concurrent stage): by
+    [C35_interleaving] they must be the model's sequential answers *)
+| CConcEnforce (tok : bytes) (T : tables) (tlo thi : Z) (qs : list (bytes * bytes * res bool))
+| CConcRefresh (tok : bytes) (T : tables) (d : Z) (tlo thi : Z) (SL : sealed) (obs : res bytes).
 
 Definition m_enforce (T : tables) now tok obj act : res bool :=
   enforce unit (open_tbl T) (dec_tbl T) true tt now tok obj act.
@@ -95,6 +100,20 @@ Definition m_refresh (T : tables) (SL : sealed) now1 tok d : res bytes :=
 
 Definition m_handler (T : tables) now header path method : hres :=
   handler unit (open_tbl T) (dec_tbl T) true tt now header path method.
+
+(** the concurrent kinds are evaluated through the thread model: the call's own four steps *)
+Definition iter4 {A} (f : A -> A) (x : A) : A := f (f (f (f x))).
+Definition t_enforce (T : tables) now tok obj act : res bool :=
+  match iter4 (tstep unit no_seal (open_tbl T) no_enc (dec_tbl T) true tt) (TStart (CallEnforce now tok obj act)) with
+  | TDone (AEnforce r) => r
+  | _ => Panic
+  end.
+Definition t_refresh (T : tables) (SL : sealed) now1 tok d : res bytes :=
+  match iter4 (tstep unit (seal_tbl SL) (open_tbl T) (enc_tbl SL) (dec_tbl T) true tt)
+              (TStart (CallRefresh now1 (s_exp SL - dur_ns d) (s_nonce SL) tok d)) with
+  | TDone (ARefresh r) => r
+  | _ => Panic
+  end.
 
 Definition in_bracket (tlo thi : Z) (SL : sealed) (d : Z) : bool :=
   (tlo <=? s_exp SL - dur_ns d) && (s_exp SL - dur_ns d <=? thi).
@@ -117,6 +136,13 @@ Definition check_case (c : case) : bool :=
   | CHandler header T tlo thi path method obs =>
       if hres_eqb (m_handler T tlo header path method) obs then true
       else hres_eqb (m_handler T thi header path method) obs
+  | CConcEnforce tok T tlo thi qs =>
+      forallb (fun q => match q with (obj, act, obs) =>
+        if res_eqb Bool.eqb (t_enforce T tlo tok obj act) obs then true
+        else res_eqb Bool.eqb (t_enforce T thi tok obj act) obs end) qs
+  | CConcRefresh tok T d tlo thi SL obs =>
+      (if res_eqb beqb (t_refresh T SL tlo tok d) obs then true else res_eqb beqb (t_refresh T SL thi tok d) obs)
+      && (negb (is_ok obs) || in_bracket tlo thi SL d)
   end.
 
 (** what is printed on a mismatch: the model's outcome(s) next to the observation *)
@@ -140,4 +166,10 @@ Definition explain_case (c : case) : explain :=
   | CRefresh tok T d tlo thi SL obs => XTok (m_refresh T SL tlo tok d) (m_refresh T SL thi tok d) obs (in_bracket tlo thi SL d)
   | CHandler header T tlo thi path method obs =>
       XHandler (m_handler T tlo header path method) (m_handler T thi header path method) obs
+  | CConcEnforce tok T tlo thi qs =>
+      XEnforce (flat_map (fun q => match q with (obj, act, obs) =>
+        let m1 := t_enforce T tlo tok obj act in
+        let m2 := t_enforce T thi tok obj act in
+        if res_eqb Bool.eqb m1 obs || res_eqb Bool.eqb m2 obs then [] else [(obj, act, m1, m2, obs)] end) qs)
+  | CConcRefresh tok T d tlo thi SL obs => XTok (t_refresh T SL tlo tok d) (t_refresh T SL thi tok d) obs (in_bracket tlo thi SL d)
   end.
